@@ -253,7 +253,7 @@ def rule_ecshift(ctx):
                     "ExtraChannelInfo.dim_shift, unlike the other sites: it works with a smaller factor than the channel really has"
                     % root.split("::")[-1], fn=fs[0])
     ctx.counts[rid + ".sites"] = n
-    ctx.floor(rid + ".sites", 3)
+    ctx.floor(rid + ".sites", 2)
 
 
 def main(pid, tier, repo=None):
